@@ -8,6 +8,23 @@ NOTE = ("Trusted: Lean 4.33 kernel (axioms per theorem audited, allowed propext/
 CORR = ("Correspondence: Tie A certificates (every reachable state x 256 bytes x both anchorings of every real build, checked by the "
         "Lean-proved certOk against the ideal automaton / the noncontiguous NFA) and Tie B differential lines (harness vs acdrv).")
 CHECKS = {
+ "C17": ("other",
+         "PARTIAL. Model: the searcher is an immutable value; C17_handles_independent proves that what a caller observes on its own "
+         "OverlappingState handle in ANY interleaved history equals running its own operations alone, and C17_finds_in_history that "
+         "every plain search returns its stand-alone answer. Code: (i) a source audit - no Cell/RefCell/UnsafeCell/atomics/locks/"
+         "static mut/thread_local/raw-pointer writes in /repo/src outside the cfg-guarded hooks, and the searcher traits still "
+         "require Send + Sync (syntactic sufficient condition for no hidden state); (ii) one searcher shared by 8 threads (and clones), "
+         "seeded mixed operations, each result compared with the sequential result before and after, and with the model. A data race is "
+         "a property of the compiled program's memory model that no executable model can exhibit.", "5 C17",
+         "Lean theorem on histories + source audit + concurrent differential run"),
+ "C15": ("other",
+         "PARTIAL. Proved on the model: every haystack access of the search loops carries its bounds proof (by construction, from "
+         "Input.valid), the Teddy window schedule only loads inside the span (C15_teddy_loads, once C06 proofs land), and every "
+         "reported match satisfies start <= end <= haystack length, pid < pattern count, inside the span (C15_*_wf). Observed, not "
+         "proved: the loads of the compiled unsafe SIMD / raw-pointer code - every haystack length 0..104 (72 quick) with arbitrary "
+         "bytes is searched in a child process flush against PROT_NONE pages on the right and on the left, for every packed variant "
+         "the CPU has and for searchers with prefilters; a SIGSEGV, abort or panic is a violation; results are compared with the model.",
+         "5 C15", "Lean proof of index arithmetic / match well-formedness on the model + guard-page exploration of the real code"),
  "C07": ("proof",
          "C07_stream_eq_iter / C07_stream_spec: for every non-empty pattern list without the empty pattern, every stream, every "
          "schedule of read sizes (entries >= 1) and every buffer capacity (production default or max-pattern-length + spare, spare >= 1), "
